@@ -32,7 +32,7 @@ ASSUMPTIONS = ['the reference outcome of a client alone is computed by the harne
 
 def cases(tier, seed):
     rnd = random.Random('c20/%d' % seed)
-    n = 400 if tier == 'quick' else 20000
+    n = 250 if tier == 'quick' else 20000
     for i in range(n):
         yield dict(n=rnd.choice([2, 2, 3, 4, 6, 8]), shared=rnd.random() < 0.5,
                    policy=rnd.choice(['uniform', 'rr', 'starve']), fine=rnd.random() < 0.5,
